@@ -17,7 +17,7 @@ for d in tests:
     shutil.copy(wt + "/" + d, dst + "/check/" + d)
 changed = sorted(set(l[6:].strip() for l in open(dst + "/patch.diff") if l.startswith("+++ b/")))
 prop = cid.split("-")[0]
-if cid.endswith("-b2") or cid.endswith("-b3") or (cid.endswith("-b4") and int(cid[1:3]) % 2 == 0) or (cid.endswith("-b5") and int(cid[1:3]) % 2 == 1):
+if cid.endswith("-b2") or cid.endswith("-b3") or (cid.endswith("-b4") and int(cid[1:3]) % 2 == 0) or (cid.endswith("-b5") and int(cid[1:3]) % 2 == 1) or (cid.endswith("-b6") and (int(cid[1:3]) - 1) % 3 != 0):
     kind = "property-preserving maintenance change (performance tweaks, logging, defensive checks, new accessors/helpers, control-flow restructuring)"
     src_txt = "independent sub-agent given only the property text and a scratch worktree (no access to /verif), asked for 6-10 realistic maintenance edits of different kinds that do not affect the property (tools/evolver_prompt.tmpl / evolver3_prompt.tmpl), with a check test that passes before and after"
 else:
